@@ -272,7 +272,62 @@ func runC10(rc *RunCtx) {
 			}
 			rc.Probe("reload_by_sighup")
 		} else {
+			// Late arrivals: on a TCP listener kept by the reload, a client with a key
+			// the new configuration removes connects right after the reload returned
+			// (while another connection keeps the old generation's accept loop busy):
+			// "removed keys stop authenticating for new connections".
+			var lateDone, busyDone, reloadReturned flag
+			late := false
+			if poison == "" {
+				nextOwners := next.owners()
+			pick:
+				for _, o := range good.owners() {
+					if o.ln.Type != "tcp" {
+						continue
+					}
+					for _, no := range nextOwners {
+						if no.ln.Type != "tcp" || no.ln.Addr != o.ln.Addr {
+							continue
+						}
+						for _, k := range o.keys {
+							if no.expect(k) == "" {
+								late = true
+								addr, removed, busyKey := o.ln.Addr, k, o.keys[G.Draw(len(o.keys))]
+								jb := jitter(G)
+								simrt.GoNamed("c10-busy-client", func() {
+									jb()
+									ms.probeTCP(addr, busyKey, nil)
+									busyDone.Set()
+								})
+								ny := G.Draw(6)
+								simrt.GoNamed("c10-late-client", func() {
+									reloadReturned.Wait()
+									for i := 0; i < ny; i++ {
+										simrt.Yield()
+									}
+									res := ms.probeTCP(addr, removed, nil)
+									if res.authID != "" {
+										rc.Failf("removed-key-authenticated-after-reload", "attempt %d: a connection made to %s after the reload had returned authenticated with key %s (as %q), which the new configuration no longer has on that listener", at, addr, removed, res.authID)
+									}
+									lateDone.Set()
+								})
+								rc.Probe("late_arrival_with_removed_key")
+								break pick
+							}
+						}
+					}
+				}
+			}
 			lerr = ms.Srv.LoadConfigForVerif(ms.File)
+			reloadReturned.Set()
+			if late {
+				if lerr != nil {
+					rc.Muted = true // (the late client's verdict presupposes a successful reload)
+				}
+				lateDone.Wait()
+				busyDone.Wait()
+				rc.Muted = false
+			}
 		}
 		if cleanup != nil {
 			cleanup()
@@ -328,6 +383,86 @@ func runC10(rc *RunCtx) {
 		checkRelation(rc, ms, good, U, pfx, when, rep)
 	}
 	rc.Nontrivial = true
+	rc.Phase = "stop"
+	ms.Srv.StopForVerif()
+	simrt.Quiesce()
+	rc.Phase = "done"
+}
+
+// c10l — the hand-over instant of a successful reload: connections and
+// datagrams that arrive right after the reload returned, on a listener the
+// reload keeps, with a key the new configuration removed, while other clients
+// keep the stopping generation's accept loop busy. "A later successful reload
+// fully replaces it, so removed keys stop authenticating for new connections."
+func init() {
+	Register(&Scenario{Name: "c10l", Prop: "C10", MaxSteps: 200000, Run: runC10Late})
+}
+
+func runC10Late(rc *RunCtx) {
+	G := rc.G
+	keep := mkKey("keep", cipherNames[G.Draw(4)], "secret-keep")
+	gone := mkKey("gone", cipherNames[G.Draw(4)], "secret-gone")
+	fresh := mkKey("fresh", cipherNames[G.Draw(4)], "secret-fresh")
+	addr := fmt.Sprintf(mainAddrs[G.Draw(2)], 9000)
+	lns := []mLn{{"tcp", addr}}
+	if G.Draw(2) == 0 {
+		lns = append(lns, mLn{"udp", addr})
+	}
+	cfg0 := &mCfg{Services: []mSvc{{Listeners: lns, Keys: []*Key{keep, gone}}}}
+	cfg1 := &mCfg{Services: []mSvc{{Listeners: lns, Keys: []*Key{keep}}}}
+	if G.Draw(2) == 0 {
+		cfg1.Services[0].Keys = append(cfg1.Services[0].Keys, fresh)
+	}
+	ms, err := newMainSim(rc, 0, cfg0)
+	if err != nil {
+		rc.Failf("valid-config-rejected", "initial configuration failed to load: %v", err)
+		return
+	}
+	rc.Phase = "reload"
+	var returned flag
+	nBusy, nLate := 1+G.Draw(3), 1+G.Draw(3)
+	done := make([]flag, nBusy+nLate)
+	for i := 0; i < nBusy; i++ {
+		i := i
+		j := jitter(G)
+		k := []*Key{keep, gone}[G.Draw(2)]
+		simrt.GoNamed(fmt.Sprintf("c10l-busy-%d", i), func() {
+			j()
+			ms.probeTCP(addr, k, nil) // before or during the reload: either verdict is fine
+			done[i].Set()
+		})
+	}
+	for i := 0; i < nLate; i++ {
+		i := i
+		ny := G.Draw(8)
+		udp := len(lns) == 2 && G.Draw(3) == 0
+		simrt.GoNamed(fmt.Sprintf("c10l-late-%d", i), func() {
+			returned.Wait()
+			for y := 0; y < ny; y++ {
+				simrt.Yield()
+			}
+			if udp {
+				if id, _ := ms.probeUDP(addr, gone); id != "" {
+					rc.Failf("removed-key-authenticated-after-reload:udp", "a datagram sent to %s after the reload had returned created an association under key %s (as %q), which the new configuration no longer has", addr, gone, id)
+				}
+			} else if res := ms.probeTCP(addr, gone, nil); res.authID != "" {
+				rc.Failf("removed-key-authenticated-after-reload:tcp", "a connection made to %s after the reload had returned authenticated with key %s (as %q), which the new configuration no longer has", addr, gone, res.authID)
+			}
+			done[nBusy+i].Set()
+		})
+	}
+	jitter(G)()
+	if err := ms.reload(cfg1, false); err != nil {
+		rc.Failf("valid-reload-failed", "a valid configuration failed to load: %v", err)
+		return
+	}
+	returned.Set()
+	for i := range done {
+		done[i].Wait()
+	}
+	rc.Nontrivial = true
+	rc.Phase = "after"
+	checkRelation(rc, ms, cfg1, []*Key{keep, gone, fresh}, "", "after the reload", 1)
 	rc.Phase = "stop"
 	ms.Srv.StopForVerif()
 	simrt.Quiesce()
